@@ -51,6 +51,21 @@ CHECKS = {
     technique='bounded exhaustive enumeration of all type hints in a window and of predicate x variable-subset combinations for priming/renaming',
     text='All 190 hints in -9..9 plus a sparse set to +-40: representability, bitfield limits, four type-hint predicates, implies_type_hints; priming/unpriming/replace_with_primed for every subset of variables, rename_variables, support classification vs. semantic dependence, with rigid constants present.',
     note='representable values are discovered by asking the translator "x = v" for every v of a window'),
+ 'C08': dict(
+    category='exploration', design='4/C08',
+    technique='bounded exhaustive enumeration of predicates x care sets x printing options; printed formula re-parsed and compared point by point, disjuncts decomposed and checked as boxes',
+    text='All predicates over small grids of each sign class with four kinds of care sets and all option combinations; to_expr output must re-parse, agree with f on the care set, and decompose into boxes inside f|~care covering f.',
+    note='the placeholder conjunct "care expression" (pinned by the test-suite) is read as TRUE; coverage of points outside the hints is not demanded when clipping to hints (show_dom) is in effect'),
+ 'C09': dict(
+    category='exploration', design='4/C09',
+    technique='bounded exhaustive enumeration of cover problems against brute-force primes and exhaustive minimum set cover',
+    text='All predicates over grids of up to 8 points, every cyclic-core instance and a spread sample of three 16-point grids (thorough: all 65535 of each), four kinds of care sets; cover.minimize must return only maximal boxes, cover f, and have minimum cardinality.',
+    note='reference enumerates all boxes and all minimum covers explicitly; says nothing about covers beyond 16 points'),
+ 'C10': dict(
+    category='exploration', design='4/C10',
+    technique='as C09; the returned set of covers must equal the exhaustively computed set of all minimum prime covers',
+    text='cover_enum.minimize on the same problem families: terminates, returns exactly all minimum covers by primes, uniform size, contains cover.minimize\'s cover.',
+    note='as C09'),
 }
 
 NOT_YET = 'check not built yet in this session (design in DESIGN.md section 4); will be claimed once its machinery runs clean on the unchanged tree'
